@@ -160,8 +160,46 @@ def _split_case(draw):
     return spec
 
 
+@st.composite
+def _split_lig_case(draw):
+    """-split (which renumbers the residues of every molecule from 0) combined with a -lig / -start
+    specification that names the new residue name and residue id 0"""
+    sig = draw(st.sampled_from([0.3, 0.43]))
+    atomtypes = [{"name": "TA", "mass": 36.0, "sigma": sig, "eps": 2.0}, {"name": "TB", "mass": 36.0, "sigma": 0.3, "eps": 2.0}]
+    rs = {"resname": "RS", "atoms": [{"name": "s1", "type": "TA", "mass": 36.0}, {"name": "s2", "type": "TB", "mass": 36.0}],
+          "bonds": [[0, 1, 0.3]], "vs": None}
+    rb = {"resname": "RB", "atoms": [{"name": "b1", "type": "TA", "mass": 36.0}], "bonds": [], "vs": None}
+    tail = [draw(st.sampled_from([rs, rb])) for _ in range(draw(st.integers(1, 3)))]
+    if rs not in tail:
+        tail.append(rs)
+    host = {"name": "MA", "residues": [rs] + tail, "shape": "linear",
+            "res_edges": [[i, i + 1] for i in range(len(tail))]}
+    sol = {"name": "SOL", "residues": [{"resname": "W", "atoms": [{"name": "w", "type": "TB", "mass": 18.0}], "bonds": [], "vs": None}],
+           "res_edges": [], "shape": "linear"}
+    nhost = draw(st.integers(1, 2))
+    molecules = [["MA", nhost], ["SOL", draw(st.integers(1, 2))]]
+    if draw(st.booleans()):
+        molecules = molecules[::-1]
+    spec = {"rng": draw(st.integers(0, 2**31 - 1)), "comb": 2, "atomtypes": atomtypes, "moltypes": [host, sol],
+            "molecules": molecules, "coords": None, "build": None}
+    names = _mol_names(spec)
+    hidx = [i for i, n in enumerate(names) if n == "MA"][0]
+    lidx = [i for i, n in enumerate(names) if n == "SOL"][0]
+    use_lig = draw(st.booleans())
+    opts = {"box": [8.0, 8.0, 8.0], "split": ["RS:X1-s1:X2-s2"]}
+    if use_lig:
+        opts["ligands"] = [[f"MA#{hidx}-X1#0", f"SOL#{lidx}"]]
+    else:
+        opts["start"] = [f"MA#{hidx}-X2#1"]
+    spec["opts"] = opts
+    spec["split"] = {"resname": "RS", "groups": {"X1": ["s1"], "X2": ["s2"]}}
+    spec["split_lig"] = {"host": hidx, "lig": lidx, "use_lig": use_lig}
+    spec["kind"] = "split_lig"
+    return spec
+
+
 def strategy(tier):
-    return st.one_of(_parse_case(), _parse_case(), _start_case(), _lig_case(), _split_case())
+    return st.one_of(_parse_case(), _parse_case(), _start_case(), _lig_case(), _split_case(), _split_lig_case())
 
 
 def min_image(vec, box):
@@ -195,7 +233,7 @@ def check(spec, ctx):
             raise Reject(str(res.exc)[:200])
         raise crash(f"{kind}:crash", res.exc)
     topo = res.topology
-    if kind != "split":
+    if kind not in ("split", "split_lig"):
         c03.check_gro_listing(spec, res)
     if kind == "parse":
         check_parse(spec, ctx, topo, names)
@@ -203,8 +241,46 @@ def check(spec, ctx):
         check_start(spec, ctx, res, topo, names)
     elif kind == "lig":
         check_lig(spec, ctx, res, topo, names)
+    elif kind == "split_lig":
+        check_split(spec, ctx, res, topo, names)
+        check_split_lig(spec, ctx, res, topo, names)
     else:
         check_split(spec, ctx, res, topo, names)
+
+
+def check_split_lig(spec, ctx, res, topo, names):
+    info = spec["split_lig"]
+    host = topo.molecules[info["host"]]
+    box = np.array(res.engine.boxsize, dtype=float)
+    if info["use_lig"]:
+        cands = [n for n in host.nodes if host.nodes[n]["resid"] == 0 and host.nodes[n]["resname"] == "X1"]
+        if len(cands) != 1:
+            raise Violation("split_lig:host_residue", f"{len(cands)} residues X1 with resid 0 in the host")
+        hnode = cands[0]
+        lmol = topo.molecules[info["lig"]]
+        lnode = next(iter(lmol.nodes))
+        d = float(np.linalg.norm(min_image(np.array(lmol.nodes[lnode]["position"]) - np.array(host.nodes[hnode]["position"]), box)))
+        size_h = topo.volumes[host.nodes[hnode].get("template", host.nodes[hnode]["resname"])]
+        size_l = topo.volumes[lmol.nodes[lnode].get("template", lmol.nodes[lnode]["resname"])]
+        want = 0.5 * (size_h + size_l)
+        if abs(d - want) > 1e-6 * max(1.0, want):
+            raise Violation("split_lig:ligand_not_at_named_residue", f"ligand is {d:.5f} nm from residue X1#0 of the host, one step is {want:.5f}")
+        # no other molecule may have lost its own placement to a ligand attachment
+        ligated = [ev for ev in res.events if ev[0] == "add" and ev[1] == info["host"] and ev[2] not in host.nodes]
+        if len({ev[2] for ev in ligated}) != 1:
+            raise Violation("split_lig:ligand_count", f"{len({ev[2] for ev in ligated})} ligand residues were attached to the host, the "
+                                                      f"specification names exactly one residue")
+        ctx.label("split_then_ligand")
+    else:
+        starts = {}
+        for ev in res.events:
+            if ev[0] == "add" and ev[3]:
+                starts[ev[1]] = ev[2]
+        want = [n for n in host.nodes if host.nodes[n]["resid"] == 1 and host.nodes[n]["resname"] == "X2"]
+        if len(want) != 1 or starts.get(info["host"]) != want[0]:
+            raise Violation("split_lig:start_residue", f"host started at node {starts.get(info['host'])}, specification X2#1 selects {want}")
+        ctx.label("split_then_start")
+    ctx.nontrivial = True
 
 
 def covers_other_names(spec, names):
